@@ -277,8 +277,13 @@ class Summary:
 # ------------------------------------------------------------------ interpreter
 
 class Sem:
-    def __init__(self, cx, crate, inline=None, clone_identity=True, max_leaves=3000, max_depth=6, opaque=()):
+    def __init__(self, cx, crate, inline=None, clone_identity=True, max_leaves=3000, max_depth=6, opaque=(),
+                 extra_crates=(), opaque_closure=None, stable_roots=False):
         self.cx, self.crate = cx, crate
+        self.crates = [crate] + [c for c in extra_crates if c is not None]
+        self.opaque_closure = opaque_closure or (lambda closure_def, stack: False)
+        self.stable_roots = stable_roots     # calls do not invalidate what reference parameters point to (e.g. `global`)
+        self.named = False                   # results of uninterpreted calls are symbols ('r', index into the leaf's trace)
         self.inline = inline or (lambda path: False)
         self.clone_identity = clone_identity
         self.max_leaves = max_leaves
@@ -294,7 +299,7 @@ class Sem:
         key = (path, args)
         if key in self._cache:
             return self._cache[key]
-        b = self.cx.body(self.crate, path) if isinstance(path, str) else path
+        b = self.find_body(path) if isinstance(path, str) else path
         if b is None:
             return None
         self._leaves = []
@@ -324,6 +329,33 @@ class Sem:
         s.heap_in_loop = self._heap_in_loop
         self._cache[key] = s
         return s
+
+    def find_body(self, path):
+        for c in self.crates:
+            f = c.fns.get(path)
+            if f is not None and "mir" in f:
+                return self.cx.body(c, path)
+        # a function of another analysed crate, named through a re-export: match type/trait + method name
+        k = _xkey(path)
+        if k is None:
+            return None
+        for c in self.crates[1:]:
+            idx = c.__dict__.get("_sem_xindex")
+            if idx is None:
+                idx = {}
+                for p, f in c.fns.items():
+                    if "mir" not in f or "{closure" in p:
+                        continue
+                    kk = _xkey(p)
+                    if kk is not None:
+                        idx.setdefault((c.name,) + kk, []).append(p)
+                c.__dict__["_sem_xindex"] = idx
+            if path.split("::")[0] != c.name and (c.name + "::") not in path:
+                continue
+            hit = idx.get((c.name,) + k, [])
+            if len(hit) == 1:
+                return self.cx.body(c, hit[0])
+        return None
 
     # ---- frames, memory
     def _frame(self, body, depth, stack, top=False):
@@ -539,7 +571,7 @@ class Sem:
             self.nvariants[v] = 2
             return
         base = t.split("<")[0]
-        for c in (self.crate,):
+        for c in self.crates:
             for a in c.j.get("adts", []):
                 if a.get("path", "").endswith(base) and str(a.get("kind", "")).lower() == "enum":
                     self.nvariants[v] = len(a.get("variants", []))
@@ -549,7 +581,7 @@ class Sem:
         vs = VARIANTS.get(v[1])
         if vs and v[2] in vs:
             return vs.index(v[2])
-        for a in self.crate.j.get("adts", []):
+        for a in (a_ for c in self.crates for a_ in c.j.get("adts", [])):
             if a.get("path") == v[1]:
                 for i, var in enumerate(a.get("variants", [])):
                     if var.get("name") == v[2]:
@@ -810,13 +842,13 @@ class Sem:
         """Call function value f (closure / fn item / unknown) with a list of argument values."""
         f = self.val(f, st)
         if f[0] == "closure":
-            cb = self.cx.body(self.crate, f[1]) if f[1] in self.crate.fns else None
-            if cb is not None and fr.depth < self.max_depth and f[1] not in fr.stack:
+            cb = self.find_body(f[1])
+            if cb is not None and fr.depth < self.max_depth and f[1] not in fr.stack and not self.opaque_closure(f[1], fr.stack):
                 return self._inline(fr, st, cb, [f] + list(args))
         if f[0] == "fnconst":
             path = f[2] or f[1]
-            if path in self.crate.fns and self.inline(path) and fr.depth < self.max_depth and path not in fr.stack:
-                cb = self.cx.body(self.crate, path)
+            if self.inline(path) and fr.depth < self.max_depth and path not in fr.stack:
+                cb = self.find_body(path)
                 if cb is not None:
                     return self._inline(fr, st, cb, list(args))
             term = mk("call", f[1], tuple(self.resolve(a, st) for a in args), f[2], ())
@@ -825,9 +857,14 @@ class Sem:
         return self._event(fr, st, term, args, site)
 
     def _event(self, fr, st, term, args, site):
+        idx = len(st.trace)
         st.trace = st.trace + ((term, len(st.order), site),)
+        if self.named:
+            term = mk("r", idx)
         for i, a in enumerate(args):
             if a[0] == "ptr" and a[3]:
+                if a[1][0] == "root" and self.stable_roots and a[1][1][0] in ("param", "upvar") and not a[2]:
+                    continue
                 if a[1][0] == "root" and st.inloop:
                     self._heap_in_loop = True
                 st.mem[a[1]] = self.update(self.cell(st, a[1]), list(a[2]), mk("post", term, i), st)
@@ -882,8 +919,8 @@ class Sem:
             if r is not None:
                 return r
             target = f.get("resolved") or path
-            if target in self.crate.fns and (self.inline(target) or self._derived_eq(target)) and fr.depth < self.max_depth and target not in fr.stack:
-                cb = self.cx.body(self.crate, target)
+            if (self.inline(target) or self._derived_eq(target)) and fr.depth < self.max_depth and target not in fr.stack:
+                cb = self.find_body(target)
                 if cb is not None:
                     try:
                         snapshot = st.fork()
@@ -897,10 +934,7 @@ class Sem:
         """`<T as PartialEq>::eq` / `ne` implemented in this crate by a small loop-free body (derive): always inlined."""
         if last(target) not in ("eq", "ne") or "PartialEq" not in target:
             return False
-        f = self.crate.fns.get(target)
-        if not f or "mir" not in f:
-            return False
-        b = self.cx.body(self.crate, target)
+        b = self.find_body(target)
         return b is not None and len(b.reach) <= 24 and not b.has_loop()
 
     def _for_each(self, fr, st, f, A, site):
@@ -927,8 +961,8 @@ class Sem:
         return [(st, UNIT)]
 
     def _call_closure(self, fr, st, fv, tup, site):
-        cb = self.cx.body(self.crate, fv[1]) if fv[1] in self.crate.fns else None
-        if cb is None or fr.depth >= self.max_depth or fv[1] in fr.stack:
+        cb = self.find_body(fv[1])
+        if cb is None or fr.depth >= self.max_depth or fv[1] in fr.stack or self.opaque_closure(fv[1], fr.stack):
             term = mk("icall", self.resolve(fv, st), tuple(self.resolve(x, st) for x in (tup[1] if tup[0] == "tuple" else (tup,))))
             return self._event(fr, st, term, [], site)
         return self._inline(fr, st, cb, [fv, tup])
@@ -1163,6 +1197,16 @@ class Sem:
         if T is None:
             return None
         return self._cases(fr, st, x, RESULT, T, site)
+
+
+def _xkey(path):
+    q = mir.qself(path)
+    if q is not None:
+        return ("trait", last(q[1].split("<")[0]), q[2])
+    segs = mir.strip_generics(path).split("::")
+    if len(segs) >= 3:
+        return ("item", segs[-2], segs[-1])
+    return None
 
 
 class _Panic:
